@@ -338,7 +338,8 @@ def check(repo):
     r4 = Rule("R8.4", "agreements that depend on configuration parameters hold symbolically, i.e. for every accepted configuration")
     rules.append(r4)
     from . import c01, c03, c05
-    for mod, rid, what in ((c01, "R1.2", "block geometry written vs parsed"), (c03, "R3.1", "wire-format field lengths"), (c05, "R5.1", "real vs filler entry lengths")):
+    for mod, rid, what in ((c01, "R1.1", "label / key derivations of set-up vs token / search"), (c01, "R1.2", "block geometry written vs parsed"),
+                           (c01, "R1.4", "capacities, divisors and level choice"), (c03, "R3.1", "wire-format field lengths"), (c05, "R5.1", "real vs filler entry lengths")):
         for rr in mod.check(repo):
             if rr.id != rid:
                 continue
